@@ -42,38 +42,40 @@ def run(ctx):
 
 
 def r5s_check(ctx, n):
-    """R5S selection and the tree-level best on twin trees: built by running tiny twin configurations and comparing the selected genomes"""
-    from .. import gen, rec
+    """R5S selection called directly on the same individuals posed both ways: the selected genomes must coincide"""
+    import numpy as np
+    from pyhms.core.individual import Individual
+    from pyhms.core.problem import FunctionProblem
+    from pyhms.utils.r5s import R5SSelection
     rng = random.Random(ctx.seed + 5)
-    viol = []
-    done = 0
-    for _ in range(n):
-        seed = rng.randrange(1, 2 ** 31)
-        spec = gen.gen_spec(seed, height=2, engines=[rng.choice(["DE", "SHADE", "LHS"]), rng.choice(["CMA", "DE", "Local"])], gsc={"kind": "MetaepochLimit", "n": 4})
-        for lv in spec["levels"]:
-            if lv["lsc"]["kind"] == "FitnessSteadiness":
-                lv["lsc"] = {"kind": "DontStop"}
-        try:
-            a = rec.run_spec(spec)
-            b = rec.run_spec(twin.twin_spec(spec))
-            if a["error"] or b["error"] or a["tree"] is None:
-                continue
-            from pyhms.utils.r5s import R5SSelection
-            sa = R5SSelection(a["tree"])() if callable(R5SSelection(a["tree"])) else None
-            sb = R5SSelection(b["tree"])()
-            ga = [tuple(map(float, i.genome)) for i in sa]
-            gb = [tuple(map(float, i.genome)) for i in sb]
-            done += 1
-            if ga != gb:
-                viol.append({"key": "C13/r5s", "what": f"R5S selects different solutions on the two formulations (seed {seed}): {ga[:3]} vs {gb[:3]}", "seed": seed, "spec": spec, "replay_fn": "twin"})
-        except Exception as ex:  # API shape differs: not a C13 matter
-            continue
-    return {"violations": viol, "evaluations": done}
+    viol, done = [], 0
+    for _ in range(n * 5):
+        m = rng.randint(3, 30)
+        dim = rng.choice([1, 2, 3])
+        G = [[rng.uniform(-3, 3) for _ in range(dim)] for _ in range(m)]
+        fs = [rng.choice([0.0, 1.0, 2.5]) if rng.random() < 0.3 else rng.uniform(-5, 5) for _ in range(m)]
+        top_k, nn = rng.randint(1, 4), rng.choice([2, 5])
+        out = []
+        for mx in (True, False):
+            prob = FunctionProblem(lambda x: float("nan"), np.array([[-3.0, 3.0]] * dim), mx)
+            inds = [Individual(np.array(g), prob, (f if mx else -f)) for g, f in zip(G, fs)]
+            try:
+                sel = R5SSelection(top_k)(inds, nn)
+            except Exception as ex:
+                sel = None
+            out.append(None if sel is None else [tuple(i.genome) for i in sel])
+        done += 1
+        if out[0] != out[1]:
+            viol.append({"key": "C13/r5s", "what": f"R5SSelection({top_k})(n={nn}) selects different solutions on (f, maximize) and (-f, minimize): fitnesses {fs}", "replay_fn": "r5s",
+                         "case": {"G": G, "fs": fs, "top_k": top_k, "n": nn}})
+    return {"violations": viol[:5], "evaluations": done}
 
 
 def replay(ctx, data):
     if data.get("kind") == "obligation-broken":
         return False, "obligation replay: " + "; ".join(map(str, data.get("no_longer_checks", [])))[:600]
+    if data.get("replay_fn") == "r5s":
+        return False, "r5s case: " + str(data.get("what"))[:400]
     if data.get("replay_fn") == "twin":
         return twin.replay_twin(ctx, data)
     p = data["case"]
